@@ -234,12 +234,15 @@ theorem snyder_eqdc_eq (s : Model.SR ℝ) (lon lat : ℝ)
       = 1 - (Model.gnum s.b / Model.gnum s.a) ^ 2 := Real.mul_self_sqrt hba
   have hpow : (Model.gnum s.b / Model.gnum s.a) ^ (2 : ℝ) = (Model.gnum s.b / Model.gnum s.a) ^ 2 := Real.rpow_two _
   have h12' : ¬ (|Model.gnum s.lat1 + Model.gnum s.lat2| < 1e-10) := by norm_num at h12 ⊢; exact h12
-  unfold Model.eqdcInit Model.eqdcFwd Gen.Go.EqdC_forward Spec.Ref.eqdc Gen.Go.c_epsln
+  unfold Model.eqdcInit Gen.Go.EqdC_init Model.eqdcFwd Gen.Go.EqdC_forward Spec.Ref.eqdc
   rnum
-  simp only [hs, hl2, h12', decide_false, Bool.false_eq_true, if_false, ite_false, bind, Except.bind, Model.aS,
+  simp only [Model.optNaN_eq, Model.optNum_eq, hs, hl2, h12', decide_false, Bool.false_eq_true, if_false, ite_false, bind, Except.bind, Model.aS,
     Model.Consts.nanC, hpow, hE, snyder_mdist_eq, snyder_m_eq, adjust_lon_eq_wrap _ hd]
-  congr 1
-  refine Prod.ext ?_ ?_ <;> simp only [] <;> ring
+  split_ifs <;>
+  · simp only [hs, Bool.false_eq_true, if_false, ite_false, Model.aS, hpow, hE, snyder_mdist_eq, snyder_m_eq,
+      adjust_lon_eq_wrap _ hd]
+    congr 1
+    refine Prod.ext ?_ ?_ <;> simp only [] <;> ring
 
 /-- **Snyder, Albers equal-area conic (14-1 … 14-15, 3-12)**: constructor + forward closure of the
 port return Snyder's closed form. -/
@@ -252,9 +255,9 @@ theorem snyder_aea_eq (s : Model.SR ℝ) (lon lat : ℝ)
             (Model.gnum s.x0) (Model.gnum s.y0) lon lat) := by
   have hpow : (Model.gnum s.b / Model.gnum s.a) ^ (2 : ℝ) = (Model.gnum s.b / Model.gnum s.a) ^ 2 := Real.rpow_two _
   have h12' : ¬ (|Model.gnum s.lat1 + Model.gnum s.lat2| < 1e-10) := by norm_num at h12 ⊢; exact h12
-  unfold Model.aeaInit Model.aeaFwd Gen.Go.AEA_forward Spec.Ref.aea Gen.Go.c_epsln
+  unfold Model.aeaInit Gen.Go.AEA_init Model.aeaFwd Gen.Go.AEA_forward Spec.Ref.aea
   rnum
-  simp only [h12', decide_false, Bool.false_eq_true, if_false, ite_false, bind, Except.bind, Model.aS,
+  simp only [Model.optNaN_eq, Model.optNum_eq, h12', decide_false, Bool.false_eq_true, if_false, ite_false, bind, Except.bind, Model.aS,
     Model.Consts.nanC, hpow, snyder_q_eq, snyder_m_eq, adjust_lon_eq_wrap _ hd]
 
 /-- **Snyder, Lambert conformal conic (15-1 … 15-10)**: constructor + forward closure of the port
@@ -273,9 +276,9 @@ theorem snyder_lcc_eq (s : Model.SR ℝ) (lon lat : ℝ)
   have h12' : ¬ (|Model.gnum s.lat1 + Model.gnum s.lat2| < 1e-10) := by norm_num at h12 ⊢; exact h12
   have hsing' : ¬ (|2 * |lat| - Real.pi| ≤ 1e-10) := by norm_num at hsing ⊢; exact hsing
   have hcon' : (1e-10 : ℝ) < |(|lat| - Real.pi / 2)| := by norm_num at hcon ⊢; exact hcon
-  unfold Model.lccInit Model.lccFwd Gen.Go.LCC_forward Spec.Ref.lcc Gen.Go.c_epsln
+  unfold Model.lccInit Gen.Go.LCC_init Model.lccFwd Gen.Go.LCC_forward Spec.Ref.lcc
   rnum
-  simp only [hl2, hk0, hx0, hy0, h12', hsing', hcon', decide_false, decide_true, Bool.false_eq_true, if_false, if_true,
+  simp only [Model.optNaN_eq, Model.optNum_eq, hl2, hk0, hx0, hy0, h12', hsing', hcon', decide_false, decide_true, Bool.false_eq_true, if_false, if_true,
     ite_false, ite_true, bind, Except.bind, Model.aS, Model.Consts.nanC, snyder_t_eq, snyder_m_eq,
     adjust_lon_eq_wrap _ hd]
 
